@@ -1,26 +1,231 @@
 /-
   Props.C24 — the task scheduler dispatches each due run once, in order, and stops on release.
-  (first layer; see notes/C24.md)
+
+  Model: Influx.Model.Sched (TreeScheduler as a transition system over atomic events: Schedule,
+  Release, clock advance, timer fire, loop wake-up, one pass of the main loop, worker done), with the
+  not-due branch as repaired by fixes/C24-notdue-timer-reset.patch (`repaired = true`).  All theorems
+  quantify over ARBITRARY event sequences (any interleaving of environment calls, clock moves, timer
+  fires, loop passes and worker completions), arbitrary cron functions, offsets, worker counts and
+  hash functions.
 -/
-import Influx.Model.Sched
+import Influx.Lemmas.SchedLog
 import Influx.Spec.C24
 
 namespace Influx.Props.C24
-open Influx.Model.Sched
+open Influx.Model.Sched Influx.Lemmas.Sched
 
-/-- Before the repair: after Schedule(A); Release(A); Schedule(B later), once A's time has come the
-    not-due branch arms the timer in the past, so the loop fires, wakes and iterates forever without
-    the clock moving and without anything being due (DESIGN §6 F8). -/
+/-- a state reachable from the initial one -/
+def reach (repaired : Bool) (cfg : Cfg) (evs : List Ev) : State := runEvs repaired cfg init evs
+
+/-- **Order / once / not early.** Every executor call in any history is for exactly the cron's next
+    time after the task's previous scheduled time (LastScheduled at `Schedule`, then the previous
+    run) — no skip, no duplicate —, with `runAt = scheduledFor + offset` for the offset the task was
+    last scheduled with, and is dispatched only once that time has come. (Holds before and after the repair.) -/
+theorem C24_order (repaired : Bool) (cfg : Cfg) (evs : List Ev) :
+    WellOrdered (reach repaired cfg evs).log :=
+  (invL_run repaired cfg evs invL_init).w
+
+/-- a cron is strictly increasing -/
+def Mono (c : Cron) : Prop := ∀ t n, c t = some n → t < n
+
+/-- **Increasing.** If every scheduled cron is strictly increasing, every run's scheduled time is
+    strictly later than the task's previous one. -/
+theorem C24_increasing (repaired : Bool) (cfg : Cfg) (evs : List Ev)
+    (hmono : ∀ id c off last, LogEv.scheduled id c off last ∈ (reach repaired cfg evs).log → Mono c) :
+    ∀ (pre : List LogEv) (w : Nat) (r : Run) (now : Int) (post : List LogEv),
+      (reach repaired cfg evs).log = pre ++ LogEv.took w r now :: post →
+      ∃ c off t, cursor r.id post = some (c, off, t) ∧ t < r.sf := by
+  intro pre w r now post hlog
+  have hw := C24_order repaired cfg evs
+  rw [hlog] at hw
+  have hsuf : WellOrdered (LogEv.took w r now :: post) := by
+    clear hlog
+    induction pre with
+    | nil => simpa using hw
+    | cons e pre ih =>
+      apply ih
+      cases e <;> first | exact hw | exact hw.2
+  obtain ⟨⟨c, off, t, h1, h2, _⟩, _⟩ := hsuf
+  obtain ⟨last, hl⟩ := cursor_scheduled h1
+  have : Mono c := hmono r.id c off last (by rw [hlog]; simp [hl])
+  exact ⟨c, off, t, h1, this t r.sf h2⟩
+
+/-- **Never concurrently with itself.** In every reachable state the executions in flight belong to
+    pairwise different tasks (and each sits on the worker its id hashes to, one per worker). -/
+theorem C24_exclusive (repaired : Bool) (cfg : Cfg) (evs : List Ev) :
+    ((reach repaired cfg evs).busy.map (·.2.id)).Nodup :=
+  busy_ids_nodup (invB_run repaired cfg evs (invB_init cfg))
+
+/-- **Stops on release.** After `Release(id)` has returned, whatever happens next — as long as the
+    task is not scheduled again — no further run of it is dispatched. -/
+theorem C24_release (repaired : Bool) (cfg : Cfg) (evs₁ evs₂ : List Ev) (id : Nat)
+    (hno : ∀ e ∈ evs₂, isScheduleOf id e = false) :
+    countTook id (reach repaired cfg (evs₁ ++ .release id :: evs₂)).log =
+      countTook id (reach repaired cfg evs₁).log := by
+  unfold reach
+  rw [runEvs, List.foldl_append, List.foldl_cons]
+  have hu := invU_run repaired cfg evs₁ invU_init
+  have hu' := invU_step repaired cfg hu (.release id)
+  have habs : id ∉ ids (stepEv repaired cfg (runEvs repaired cfg init evs₁) (.release id)).queue :=
+    ids_removeId id _
+  have := absent_run repaired cfg id evs₂ hu' habs hno
+  simp only [runEvs] at this ⊢
+  rw [this]
+  simp [stepEv, release, countTook]
+
+/-- the loop goroutine sleeps, no tick is pending and the armed timer (if any) has not expired:
+    nothing in the scheduler can move until the clock or the environment does -/
+def Quiescent (s : State) : Prop := s.mode = .idle ∧ s.tick = false ∧ timerExpired s = false
+
+/-- **Every due time is dispatched; `When()` is never stale at rest.** In every quiescent reachable
+    state of the repaired scheduler nothing pending is due, and if anything is pending the timer is
+    armed in the future, not later than `when`, which is not later than any pending due time. -/
+theorem C24_quiescent (cfg : Cfg) (evs : List Ev) (hq : Quiescent (reach true cfg evs)) :
+    let s := reach true cfg evs
+    (∀ it ∈ s.queue, s.now < it.when) ∧
+    (∀ w, s.when_ = some w → ∃ d, s.timer = some d ∧ s.now < d ∧ d ≤ w ∧ ∀ it ∈ s.queue, w ≤ it.when) ∧
+    (s.queue ≠ [] → s.when_.isSome = true) := by
+  intro s
+  have hI : InvT s := invT_run cfg evs invT_init
+  obtain ⟨hm, ht, he⟩ := hq
+  have key : ∀ w, s.when_ = some w → ∃ d, s.timer = some d ∧ s.now < d ∧ d ≤ w ∧ ∀ it ∈ s.queue, w ≤ it.when := by
+    intro w hw
+    obtain ⟨d, hd, hle⟩ := hI.k3 hm ht w hw
+    have hne : ¬ d ≤ s.now := by
+      have : timerExpired s = false := he
+      simp [timerExpired, hd] at this
+      omega
+    exact ⟨d, hd, by omega, by omega, hI.k2 w hw⟩
+  refine ⟨?_, key, hI.k4⟩
+  intro it hit
+  have hne : s.queue ≠ [] := fun h => by simp [h] at hit
+  have := hI.k4 hne
+  cases hw : s.when_ with
+  | none => simp [hw] at this
+  | some w =>
+    obtain ⟨d, _, h1, h2, h3⟩ := key w hw
+    have := h3 it hit
+    omega
+
+/-- **`When()` is the earliest pending due time** whenever the loop goes back to sleep: after a pass
+    that ends idle with something pending, `when` and the armed deadline both equal the smallest
+    pending due time, which lies in the future. -/
+theorem C24_when_earliest (cfg : Cfg) (evs : List Ev)
+    (hl : (reach true cfg evs).mode = .looping)
+    (hi : (iter true cfg (reach true cfg evs)).mode = .idle) :
+    let s' := iter true cfg (reach true cfg evs)
+    ∀ m q, s'.queue = m :: q →
+      s'.when_ = some m.when ∧ s'.timer = some m.when ∧ s'.now < m.when ∧ ∀ it ∈ s'.queue, m.when ≤ it.when := by
+  intro s' m q hq
+  have hI : InvT (reach true cfg evs) := invT_run cfg evs invT_init
+  have hI' : InvT s' := invT_iter cfg hI
+  have hsorted := sorted_head_le (hq ▸ hI'.sorted)
+  have hmin : ∀ it ∈ s'.queue, m.when ≤ it.when := fun it hit => hsorted it (hq ▸ hit)
+  refine ⟨?_, ?_, ?_, hmin⟩ <;>
+  · rcases iter_cases true cfg (reach true cfg evs) hl with ⟨hq0, he⟩ | ⟨it, rest, hq0, hdue, he⟩ | ⟨it, rest, hq0, hdue, he⟩
+    · have : s'.queue = [] := by show (iter true cfg _).queue = []; rw [he]; exact hq0
+      rw [this] at hq; cases hq
+    · have hq1 : s'.queue = it :: rest := by
+        show (iter true cfg _).queue = _; rw [he, (notDue_queue _ _ _).1]; exact hq0
+      rw [hq1] at hq
+      obtain ⟨rfl, _⟩ := List.cons.inj hq
+      all_goals (first
+        | (show (iter true cfg _).when_ = _; rw [he]; simp [notDue])
+        | (show (iter true cfg _).timer = _; rw [he]; simp [notDue])
+        | (show (iter true cfg _).now < _; rw [he]; simp [notDue]; omega))
+    · rcases afterProcess_cases (processStep cfg (reach true cfg evs)) with ⟨hq2, ha⟩ | ⟨m2, q2, hq2, hlater, ha⟩ | ⟨m2, q2, hq2, hlater, ha⟩
+      · have : s'.queue = [] := by show (iter true cfg _).queue = []; rw [he, ha]; exact hq2
+        rw [this] at hq; cases hq
+      · have hq1 : s'.queue = m2 :: q2 := by show (iter true cfg _).queue = _; rw [he, ha]; exact hq2
+        rw [hq1] at hq
+        obtain ⟨rfl, _⟩ := List.cons.inj hq
+        all_goals (first
+          | (show (iter true cfg _).when_ = _; rw [he, ha])
+          | (show (iter true cfg _).timer = _; rw [he, ha])
+          | (show (iter true cfg _).now < _; rw [he, ha]; exact hlater))
+      · exfalso
+        have : (iter true cfg (reach true cfg evs)).mode = .looping := by
+          rw [he, ha]; simp [processStep, hl]
+        rw [this] at hi; cases hi
+
+/-- **No spin while nothing is due** (the F8 situation: something is pending, nothing is due). One
+    pass of the loop sends it back to sleep with the timer armed at the earliest pending due time, in
+    the future, without touching the queue or running anything; then neither the timer nor the loop
+    can move until the clock or the environment does. -/
+theorem C24_no_spin (cfg : Cfg) (evs : List Ev)
+    (hl : (reach true cfg evs).mode = .looping)
+    (hne : (reach true cfg evs).queue ≠ [])
+    (hnd : ∀ it ∈ (reach true cfg evs).queue, (reach true cfg evs).now < it.when) :
+    let s := reach true cfg evs
+    let s' := iter true cfg s
+    s'.mode = .idle ∧ timerExpired s' = false ∧ s'.queue = s.queue ∧ s'.log = s.log ∧
+      stepEv true cfg s' .timerFire = s' ∧ stepEv true cfg s' .iter = s' := by
+  intro s s'
+  have key : s'.mode = .idle ∧ timerExpired s' = false ∧ s'.queue = s.queue ∧ s'.log = s.log := by
+    rcases iter_cases true cfg s hl with ⟨hq0, _⟩ | ⟨it, rest, hq0, hdue, he⟩ | ⟨it, rest, hq0, hdue, _⟩
+    · exact absurd hq0 hne
+    · show (iter true cfg s).mode = _ ∧ timerExpired (iter true cfg s) = false ∧ (iter true cfg s).queue = _ ∧
+        (iter true cfg s).log = _
+      rw [he]
+      refine ⟨by simp [notDue], ?_, by simp [notDue], by simp [notDue]⟩
+      simp [notDue, timerExpired]; omega
+    · have : s.now < it.when := hnd it (by show it ∈ s.queue; rw [hq0]; simp)
+      omega
+  refine ⟨key.1, key.2.1, key.2.2.1, key.2.2.2, ?_, ?_⟩
+  · simp [stepEv, key.2.1]
+  · simp [stepEv, iter, key.1]
+
+/-- With nothing pending at all, a pass puts the loop to sleep and clears `when`; a timer left armed by
+    an earlier `Schedule` can wake it once more, after which no timer is armed. -/
+theorem C24_no_spin_empty (cfg : Cfg) (evs : List Ev)
+    (hl : (reach true cfg evs).mode = .looping) (he : (reach true cfg evs).queue = []) :
+    let s' := iter true cfg (reach true cfg evs)
+    s'.mode = .idle ∧ s'.when_ = none ∧
+      (runEvs true cfg s' [.timerFire, .wake, .iter]).timer = none ∨
+      (s'.mode = .idle ∧ s'.when_ = none ∧ timerExpired s' = false) := by
+  intro s'
+  rcases iter_cases true cfg (reach true cfg evs) hl with ⟨_, hi⟩ | ⟨it, rest, hq0, _⟩ | ⟨it, rest, hq0, _⟩
+  · by_cases hx : timerExpired s' = true
+    · left
+      refine ⟨by show (iter true cfg _).mode = _; rw [hi], by show (iter true cfg _).when_ = _; rw [hi], ?_⟩
+      have hm : s'.mode = .idle := by show (iter true cfg _).mode = _; rw [hi]
+      have hq : s'.queue = [] := by show (iter true cfg _).queue = _; rw [hi]; exact he
+      simp only [runEvs, List.foldl_cons, List.foldl_nil, stepEv, hx, if_true]
+      simp only [hm, true_and, if_true]
+      simp [iter, hq]
+    · right
+      exact ⟨by show (iter true cfg _).mode = _; rw [hi], by show (iter true cfg _).when_ = _; rw [hi],
+        by simpa using hx⟩
+  · rw [he] at hq0; cases hq0
+  · rw [he] at hq0; cases hq0
+
+/-- **The code before the repair spins.** After Schedule(A); Release(A); Schedule(B later), once A's
+    time has come the not-due branch (`timer.Reset(ts.Sub(it.When()))`) arms the timer in the past and
+    leaves `when` at A's time: nothing is due, yet the timer is expired again, and one more round
+    (fire, wake, pass) reproduces the same situation — for ever, without the clock moving
+    (DESIGN §6 F8; reproduced on the real code by `bin/mutation-test` with the repair reverted:
+    `spin r 150 1000` → `spin=1|when=A|pulse=fail`). -/
 theorem C24_unrepaired_spins :
     let cfg : Cfg := { nworkers := 2, hash := fun id => id }
     let s0 := runEvs false cfg init
       [.schedule 1 (cronEvery 10) 0 0, .release 1, .schedule 2 (cronEvery 60) 0 0, .advance 10000,
        .timerFire, .wake, .iter]
-    -- nothing is due, yet the timer is already expired again …
     (s0.queue.all fun it => s0.now < it.when) = true ∧ timerExpired s0 = true ∧ s0.when_ = some 10000 ∧
-    -- … and one more round (fire, wake, iter) reproduces the same situation
     (let s1 := runEvs false cfg s0 [.timerFire, .wake, .iter]
      s1.timer = s0.timer ∧ s1.now = s0.now ∧ s1.mode = s0.mode ∧ s1.tick = s0.tick ∧ timerExpired s1 = true) := by
   decide
+
+-- non-vacuity of the hypotheses used above: a reachable looping state with something pending and
+-- nothing due (the situation of C24_no_spin), and a quiescent one (C24_quiescent)
+example :
+    let cfg : Cfg := { nworkers := 2, hash := fun id => id }
+    let s := reach true cfg [.schedule 1 (cronEvery 10) 0 0, .release 1, .schedule 2 (cronEvery 60) 0 0,
+                             .advance 10000, .timerFire, .wake]
+    s.mode = .looping ∧ s.queue ≠ [] ∧ (s.queue.all fun it => s.now < it.when) = true := by decide
+
+example :
+    let cfg : Cfg := { nworkers := 2, hash := fun id => id }
+    let s := reach true cfg [.schedule 1 (cronEvery 10) 0 0, .advance 10000, .timerFire, .wake, .iter, .done 1]
+    s.mode = .idle ∧ s.tick = false ∧ timerExpired s = false ∧ s.when_ = some 20000 ∧ s.log.length = 3 := by decide
 
 end Influx.Props.C24
